@@ -452,7 +452,9 @@ static void *ext_main(void *p)
 #define MAXM 4
 typedef struct {
     int id, home, rounds, migratable, cbmode, self_req, suspend_round;
-    ABT_thread th, partner;
+    int block_kind; /* how it blocks in its suspend round: 0 ABT_self_suspend, 1 ABT_eventual_wait, 3 ABT_self_resume_suspend_to */
+    ABT_thread th, partner, parker;
+    ABT_eventual ev;
     volatile int cb_count, done, round, state_hint, cb_ready;
 } mover_t;
 static ABT_pool g_hold;
@@ -463,6 +465,13 @@ static void partner_body(void *a)
     /* parked in a pool that no scheduler serves; runs only when yielded to */
     while (!g_partner_stop)
         ABT_thread_yield();
+}
+/* a helper that is always blocked: the target of ABT_self_resume_suspend_to */
+static void parker_body(void *a)
+{
+    (void)a;
+    while (!g_partner_stop)
+        CHK(ABT_self_suspend());
 }
 static mover_t MV[MAXM + 1];
 static int g_nm;
@@ -531,9 +540,22 @@ static void mover_body(void *arg)
             }
         }
         if (r == m->suspend_round) {
-            EV("\"e\":\"Suspend\",\"u\":%d", m->id);
-            m->state_hint = 1;
-            CHK(ABT_self_suspend());
+            /* every blocking path counts the unit in num_blocked of the pool it will
+             * come back to -- also when a migration request is handled right there */
+            int kind = m->block_kind;
+            if (kind == 3 && (m->parker == ABT_THREAD_NULL || state_of(m->parker) != 2))
+                kind = 0;
+            EV("\"e\":\"Suspend\",\"u\":%d,\"how\":%d", m->id, kind);
+            if (kind == 1) {
+                m->state_hint = 3;
+                CHK(ABT_eventual_wait(m->ev, NULL));
+            } else if (kind == 3) {
+                m->state_hint = 1;
+                CHK(ABT_self_resume_suspend_to(m->parker));
+            } else {
+                m->state_hint = 1;
+                CHK(ABT_self_suspend());
+            }
             m->state_hint = 0;
             EV("\"e\":\"Resumed\",\"u\":%d", m->id);
         } else if (m->partner != ABT_THREAD_NULL && rnd(3) == 0) {
@@ -552,6 +574,13 @@ static void mover_body(void *arg)
 }
 static int try_resume(int who, mover_t *m)
 {
+    if (m->state_hint == 3 && state_of(m->th) == 2) {
+        m->state_hint = 2;
+        EV("\"e\":\"ResumeCall\",\"by\":%d,\"u\":%d", who, m->id);
+        CHK(ABT_eventual_set(m->ev, NULL, 0));
+        EV("\"e\":\"ResumeRet\",\"by\":%d,\"u\":%d", who, m->id);
+        return 1;
+    }
     if (m->state_hint == 1 && state_of(m->th) == 2) {
         m->state_hint = 2;
         EV("\"e\":\"ResumeCall\",\"by\":%d,\"u\":%d", who, m->id);
@@ -578,7 +607,7 @@ static void mig_serve(int who)
             if (!m->cb_ready)
                 continue;
             /* resume duty (sometimes only after a request was issued while it is blocked) */
-            if (m->state_hint == 1 && (m->self_req || g_nes < 2 || rnd(2)) && try_resume(who, m))
+            if ((m->state_hint == 1 || m->state_hint == 3) && (m->self_req || g_nes < 2 || rnd(2)) && try_resume(who, m))
                 continue;
             if (m->self_req || g_nes < 2 || issued > 12)
                 continue;
@@ -645,6 +674,11 @@ static void scn_migrate(void)
         m->partner = ABT_THREAD_NULL;
         if (rnd(2))
             CHK(ABT_thread_create(g_hold, partner_body, NULL, ABT_THREAD_ATTR_NULL, &m->partner));
+        m->parker = ABT_THREAD_NULL;
+        m->block_kind = rnd(3) == 0 ? 0 : rnd(2) ? 1 : 3;
+        if (m->block_kind == 3)
+            CHK(ABT_thread_create(g_pool[0][0], parker_body, NULL, ABT_THREAD_ATTR_NULL, &m->parker));
+        CHK(ABT_eventual_create(0, &m->ev));
         m->home = rnd(g_nes);
         m->rounds = 2 + rnd(5);
         m->migratable = rnd(6) != 0;
@@ -683,8 +717,18 @@ static void scn_migrate(void)
         EV("\"e\":\"FreeRet\",\"by\":0,\"u\":%d,\"null\":%d,\"tok\":%d", i, MV[i].th == ABT_THREAD_NULL, i * 10);
         EV("\"e\":\"MigCount\",\"u\":%d,\"n\":%d", i, MV[i].cb_count);
     }
-    /* let the partners finish on the primary stream */
+    /* let the partners and parkers finish */
     g_partner_stop = 1;
+    for (int i = 1; i <= g_nm; i++) {
+        CHK(ABT_eventual_free(&MV[i].ev));
+        if (MV[i].parker != ABT_THREAD_NULL) {
+            while (state_of(MV[i].parker) != 2 && state_of(MV[i].parker) != 3)
+                pause_any(0);
+            if (state_of(MV[i].parker) == 2)
+                CHK(ABT_thread_resume(MV[i].parker));
+            CHK(ABT_thread_free(&MV[i].parker));
+        }
+    }
     for (int i = 1; i <= g_nm; i++)
         if (MV[i].partner != ABT_THREAD_NULL) {
             ABT_thread t;
@@ -1308,6 +1352,78 @@ static void scn_ryt(void)
     }
 }
 
+/* ======================================================================= main-scheduler replacement (C01, C06, C11)
+ * A secondary stream runs a scheduler over three pools.  A ULT in one of them
+ * (any index) replaces the main scheduler of its own stream by one with a
+ * single pool; the caller must continue under the new scheduler (it is moved
+ * to its first pool), the other units -- all in the pool that survives -- must
+ * still run exactly once, and the stream must be joinable afterwards. */
+typedef struct {
+    int id, yields, replacer, keep;
+    ABT_thread th;
+} rp_t;
+static rp_t RP[8];
+static ABT_pool g_rq[3];
+static ABT_xstream g_rx;
+static void rp_body(void *arg)
+{
+    rp_t *me = (rp_t *)arg;
+    int rank = -1, fl = 0;
+    ABT_xstream_self_rank(&rank);
+    EV("\"e\":\"Start\",\"u\":%d,\"arg\":%d,\"es\":%d,\"n\":1", me->id, me->id * 10, rank);
+    for (int k = 0; k < me->yields; k++) {
+        EV("\"e\":\"Yield\",\"u\":%d", me->id);
+        CHK(ccall_q(me->id, &(prim_t){ .kind = PK_YIELD }, &fl));
+        EV("\"e\":\"Back\",\"u\":%d", me->id);
+        ctx_log(me->id, PK_YIELD, fl);
+        if (me->replacer && k == 0) {
+            /* the replacement is a scheduling point of the caller */
+            EV("\"e\":\"Note\",\"what\":\"set_main_sched\",\"u\":%d,\"keep\":%d", me->id, me->keep);
+            EV("\"e\":\"Yield\",\"u\":%d", me->id);
+            ABT_xstream self_xs; /* (the creator may not have stored the stream's handle yet) */
+            CHK(ABT_xstream_self(&self_xs));
+            CHK(ABT_xstream_set_main_sched_basic(self_xs, rnd(2) ? ABT_SCHED_BASIC : ABT_SCHED_PRIO, 1, &g_rq[me->keep]));
+            EV("\"e\":\"Back\",\"u\":%d", me->id);
+        }
+    }
+    EV("\"e\":\"Finish\",\"u\":%d", me->id);
+}
+static void scn_replace(void)
+{
+    memset(RP, 0, sizeof RP);
+    int n = 2 + rnd(4);
+    int keep = rnd(3);
+    EV("\"e\":\"Exec\",\"nu\":%d,\"nes\":%d,\"cfg\":%d,\"ext\":0", n, g_nes, g_cfg);
+    for (int i = 0; i < 3; i++)
+        CHK(ABT_pool_create_basic(ABT_POOL_FIFO, ABT_POOL_ACCESS_MPMC, ABT_TRUE, &g_rq[i]));
+    ABT_sched sc;
+    CHK(ABT_sched_create_basic(ABT_SCHED_BASIC, 3, g_rq, ABT_SCHED_CONFIG_NULL, &sc));
+    /* the units exist before the stream starts */
+    for (int i = 1; i <= n; i++) {
+        rp_t *u = &RP[i];
+        u->id = i;
+        u->yields = 1 + rnd(3);
+        u->replacer = i == 1;
+        u->keep = keep;
+        int pool = u->replacer ? rnd(3) : keep;
+        EV("\"e\":\"Create\",\"by\":0,\"u\":%d,\"kind\":0,\"named\":1,\"arg\":%d,\"pool\":1", i, i * 10);
+        CHK(ABT_thread_create(g_rq[pool], rp_body, u, ABT_THREAD_ATTR_NULL, &u->th));
+        EV("\"e\":\"CreateRet\",\"by\":0,\"u\":%d", i);
+    }
+    CHK(ABT_xstream_create(sc, &g_rx));
+    for (int i = 1; i <= n; i++) {
+        EV("\"e\":\"FreeCall\",\"by\":0,\"u\":%d", i);
+        CHK(ABT_thread_free(&RP[i].th));
+        EV("\"e\":\"FreeRet\",\"by\":0,\"u\":%d,\"null\":%d,\"tok\":%d", i, RP[i].th == ABT_THREAD_NULL, i * 10);
+    }
+    EV("\"e\":\"XJoinCall\",\"s\":9");
+    CHK(ABT_xstream_join(g_rx));
+    ABT_xstream_state xst;
+    CHK(ABT_xstream_get_state(g_rx, &xst));
+    EV("\"e\":\"XJoinRet\",\"s\":9,\"us\":[],\"term\":%d", xst == ABT_XSTREAM_STATE_TERMINATED);
+    CHK(ABT_xstream_free(&g_rx));
+}
+
 /* ======================================================================= cancel before the first run (C12, C03)
  * A named ULT is created (or revived) into a pool that no scheduler serves,
  * so it has never been scheduled; a joiner blocks on it; it is cancelled and
@@ -1704,9 +1820,11 @@ static void scenario(const char *name, uint64_t seed)
     CHK(ABT_init(0, NULL));
     setup_streams();
     if (!strcmp(name, "migrate") || !strcmp(name, "migrace") || !strcmp(name, "switch") || !strcmp(name, "xjoin") ||
-        !strcmp(name, "cancelnew") || !strcmp(name, "cancelmix") || !strcmp(name, "ryt")) {
+        !strcmp(name, "cancelnew") || !strcmp(name, "cancelmix") || !strcmp(name, "ryt") || !strcmp(name, "replace")) {
         if (!strcmp(name, "migrace"))
             scn_migrace();
+        else if (!strcmp(name, "replace"))
+            scn_replace();
         else if (!strcmp(name, "ryt"))
             scn_ryt();
         else if (!strcmp(name, "xjoin"))
